@@ -107,20 +107,23 @@ theorem csa_unchanged_no_request (group : String) (s : St) (m : Manifest) (frm :
   simp only [hget, hla, hown, hsame, decide_true, Bool.and_self, Bool.true_or, if_true]
   simp
 
-/-- the inventory is not rewritten by the merge when the apply set equals the stored set -/
+/-- the inventory is not rewritten by the merge when the apply set equals the stored set (inventory client with
+StatusPolicyNone; with StatusPolicyAll it is rewritten every time, to refresh the stored object statuses) -/
 theorem merge_noop_when_equal (s : St) (ids l : List Id) (hinv : s.cl.inv = some l) (hnof : s.invReads ∉ s.run.failInvRead)
-    (hnof2 : s.invReads + 1 ∉ s.run.failInvRead) (hst : storable (IdSet.union l ids) = true) (heq : IdSet.equal ids l = true) :
+    (hnof2 : s.invReads + 1 ∉ s.run.failInvRead) (hst : storable (IdSet.union l ids) = true) (heq : IdSet.equal ids l = true)
+    (hsp : s.run.opts.statusAll = false) :
     (mergeInv s ids).1.muts = s.muts ∧ (mergeInv s ids).1.cl = s.cl ∧ (mergeInv s ids).2 = none := by
   unfold mergeInv
   have r1 : s.invRead = ({ s with invReads := s.invReads + 1 }, some (some l)) := by
     simp [St.invRead, hnof, hinv]
   have r2 : ({ s with invReads := s.invReads + 1 } : St).invRead = ({ s with invReads := s.invReads + 2 }, some (some l)) := by
     simp [St.invRead, hnof2, hinv]
-  simp [r1, r2, hst, heq]
+  simp [r1, r2, hst, heq, hsp]
 
 /-- … nor by the final replace when the computed inventory equals the stored one -/
 theorem replace_noop_when_equal (s : St) (objs l : List Id) (hinv : s.cl.inv = some l) (hnof : s.invReads ∉ s.run.failInvRead)
-    (hnof2 : s.invReads + 1 ∉ s.run.failInvRead) (hst : storable objs = true) (heq : IdSet.equal objs l = true) :
+    (hnof2 : s.invReads + 1 ∉ s.run.failInvRead) (hst : storable objs = true) (heq : IdSet.equal objs l = true)
+    (hsp : s.run.opts.statusAll = false) :
     (replaceInv s objs).1.muts = s.muts ∧ (replaceInv s objs).1.cl = s.cl ∧ (replaceInv s objs).2 = none := by
   unfold replaceInv
   have r1 : s.invRead = ({ s with invReads := s.invReads + 1 }, some (some l)) := by
@@ -129,7 +132,7 @@ theorem replace_noop_when_equal (s : St) (objs l : List Id) (hinv : s.cl.inv = s
     simp [St.invRead, hnof2, hinv]
   split
   · exact ⟨rfl, rfl, rfl⟩
-  · simp [r1, r2, hst, heq]
+  · simp [r1, r2, hst, heq, hsp]
 
 /-! non-vacuity -/
 section Examples
